@@ -49,7 +49,7 @@ ASSUMPTIONS = [
 ]
 
 NAMES = ["A", "a", "B", "", "A:1", "UNKNOWN"]
-BIG_NAMES = ["A", "a", "B", "b", "AB", "", " ", "A:1", "A:2", "a:1", "B:1", "UNKNOWN", "unknown", "UNKNOWN:1",
+BIG_NAMES = ["A", "a", "B", "b", "AB", "", " ", "A:1", "A:2", "a:1", "B:1", "UNKNOWN", "unknown", "UNKNOWN:1", "SW%", "%d", "C{0}",
              "A:1:1", "1", "A:01"]
 
 
@@ -194,7 +194,7 @@ def judge_history(case, every_step, header_maxlen=None):
     out.nontrivial = bool(feats)
     out.cls("ci" if ci else "cs", "len-%d" % len(ops), *sorted(feats))
     out.cls(*sorted({"op-" + op[0] for op in ops}))
-    if header_maxlen is None or len(ops) <= header_maxlen:
+    if (header_maxlen is None or len(ops) <= header_maxlen) and not any(op[0] == "set_data" for op in ops):
         # on a bare section the positional replacement is `section[i] = item`
         run_history(out, "header", ci, [["set_ix"] + op[1:] if op[0] == "rci" else op for op in ops], every_step)
     run_history(out, "curves", ci, ops, every_step)
@@ -267,6 +267,8 @@ def long_histories(draw):
             if curves_only:
                 kinds += ["rci", "rci"]
         kinds.append("set_absent")
+        if n and curves_only:
+            kinds.append("set_data")
         if n >= 2:
             kinds += ["move", "move"]
         k = draw(st.sampled_from(kinds))
@@ -284,6 +286,8 @@ def long_histories(draw):
             op = ["set", "ZZ", draw(name)]  # documented: appends when the key is absent
         elif k == "move":
             op = ["move", draw(st.integers(0, n - 1)), draw(st.integers(0, n - 1))]
+        elif k == "set_data":
+            op = ["set_data"]
         elif k == "set_ix":
             op = ["set_ix", draw(st.integers(0, n - 1)), draw(name)]
         else:
@@ -393,23 +397,36 @@ def file_oracle(case):
     originals = {"Well": [it.original_mnemonic for it in list.__iter__(las.well)], "Curves": [], "Parameter": [],
                  "Version": [it.original_mnemonic for it in list.__iter__(las.version)]}
     serial = 0
+
+    def add(title, fn, *args, **kw):
+        # appending an item, whatever its name, is an operation of the property's domain: it must not raise
+        r = attempt(fn, *args, **kw)
+        if is_raised(r):
+            out.fail("operation-raised|append|%s" % r.bucket, "appending %r to %s raised %s" % (args[0] if title == "Curves" else args[0].original_mnemonic, title, r))
+            return False
+        return True
+
     for mn in secs.get("Version", []):
         serial += 1
-        las.version.append(lasio.HeaderItem(mn, "", "v%d" % serial, "version item %d" % serial))
+        if not add("Version", las.version.append, lasio.HeaderItem(mn, "", "v%d" % serial, "version item %d" % serial)):
+            return out
         originals["Version"].append(mn)
     for mn in secs["Well"]:
         serial += 1
-        las.well.append(lasio.HeaderItem(mn, "", "w%d" % serial, "well item %d" % serial))
+        if not add("Well", las.well.append, lasio.HeaderItem(mn, "", "w%d" % serial, "well item %d" % serial)):
+            return out
         originals["Well"].append(mn)
     las.append_curve("DEPT", np.arange(nrows, dtype=float) + 1.0, unit="m", descr="index")
     originals["Curves"].append("DEPT")
     for mn in secs["Curves"]:
         serial += 1
-        las.append_curve(mn, np.arange(nrows, dtype=float) + 10.0 * serial, unit="", descr="curve %d" % serial)
+        if not add("Curves", las.append_curve, mn, np.arange(nrows, dtype=float) + 10.0 * serial, unit="", descr="curve %d" % serial):
+            return out
         originals["Curves"].append(mn)
     for mn in secs["Parameter"]:
         serial += 1
-        las.params.append(lasio.HeaderItem(mn, "", serial, "param %d" % serial))
+        if not add("Parameter", las.params.append, lasio.HeaderItem(mn, "", serial, "param %d" % serial)):
+            return out
         originals["Parameter"].append(mn)
 
     dup = False
